@@ -143,21 +143,27 @@ COMPONENT_SHAPES = {
 }
 
 
-def run_component_case(m, cmatch: Set[int], pshape_name: str, pins: Dict[int, int], ptags: Set[int], pmatch: Set[int], ncomp: int = 1) -> None:
+def run_component_case(m, cmatch: Set[int], pshape_name: str, pins: Dict[int, int], ptags: Set[int], pmatch: Set[int], ncomp: int = 1, double_top: bool = False) -> None:
     """component: `m` = number of commits of a linear history, or the name of a component shape; commit i carries build 2000+i;
     pins[c] = component commit pinned by parent commit c; 'contains' = reachability in the component history"""
     import ak.ghist as G
     cshape = COMPONENT_SHAPES[m] if isinstance(m, str) else {i: ([i - 1] if i > 1 else []) for i in range(1, m + 1)}
     top = max(cshape)
-    comp = StubRepo("lib", cshape, {c: "BUG-1 fix" for c in cmatch}, {c: f"build_{2000 + c}_release_7_1_success" for c in cshape}, {"master": top})
+    ctags: Dict[int, Any] = {c: f"build_{2000 + c}_release_7_1_success" for c in cshape}
+    if double_top:
+        # two builds were made from the newest component commit; parents pin the later one
+        ctags[top] = (ctags[top], f"build_{2000 + top + 1}_release_7_1_success")
+    comp = StubRepo("lib", cshape, {c: "BUG-1 fix" for c in cmatch}, ctags, {"master": top})
     # an optional second component with the same history (its builds get the same internal numbers as those of the first)
     comp2 = StubRepo("lib2", cshape, {c: "BUG-1 fix" for c in cmatch}, {c: f"build_{2000 + c}_release_7_1_success" for c in cshape}, {"master": top}) if ncomp == 2 else None
     creach = {c: reach(cshape, c) for c in cshape}
     pshape, pheads = PARENT_SHAPES[pshape_name]
-    files = {c: {"DEPENDS": json.dumps({n: f"7.1.{2000 + pins[c]}" for n in (["lib", "lib2"] if ncomp == 2 else ["lib"])})} for c in pshape}
+    def pinned(c):
+        return 2000 + pins[c] + (1 if (double_top and pins[c] == top) else 0)
+    files = {c: {"DEPENDS": json.dumps({n: f"7.1.{pinned(c)}" for n in (["lib", "lib2"] if ncomp == 2 else ["lib"])})} for c in pshape}
     parent = StubRepo("app", pshape, {c: "BUG-1 app" for c in pmatch}, {c: f"build_{300 + c}_release_1_0_success" for c in ptags}, pheads, files=files)
     ParentRepo = _mk_parent_class(ncomp)
-    what = (f"component {m!r} matching {sorted(cmatch)}; parent {pshape_name} pins {pins} tags {sorted(ptags)} own matching {sorted(pmatch)}" + (" components 2" if ncomp == 2 else ""))
+    what = (f"component {m!r} matching {sorted(cmatch)}; parent {pshape_name} pins {pins} tags {sorted(ptags)} own matching {sorted(pmatch)}" + (" components 2" if ncomp == 2 else "") + (" double-top" if double_top else ""))
     try:
         repos = {"app": ParentRepo("app", parent, "origin"), "lib": G.ProjectRepo("lib", comp, "origin")}
         if ncomp == 2:
@@ -258,7 +264,7 @@ def h_component(m: int, cm: int, shard=None) -> None:
         for pins in _pin_assignments(pshape, m):
             for ptags in itertools.chain.from_iterable(itertools.combinations(ids, k) for k in range(len(ids) + 1)):
                 for pmatch in (set(), {ids[-1]}, {ids[0]}):
-                    run_component_case(m, cmatch, shard["parent"], pins, set(ptags), pmatch, shard.get("ncomp", 1))
+                    run_component_case(m, cmatch, shard["parent"], pins, set(ptags), pmatch, shard.get("ncomp", 1), shard.get("double_top", False))
 
 
 def replay_h_component(record):
@@ -270,7 +276,7 @@ def replay_h_component(record):
         return "cannot parse the failing case"
     try:
         run_component_case(ast.literal_eval(m.group(1)), set(ast.literal_eval(m.group(2))), m.group(3), ast.literal_eval(m.group(4)), set(ast.literal_eval(m.group(5))), set(ast.literal_eval(m.group(6))),
-                           2 if " components 2" in msg else 1)
+                           2 if " components 2" in msg else 1, " double-top" in msg)
     except Violation as e:
         return str(e)
     return None
@@ -287,6 +293,8 @@ def jobs(tier: str) -> List[Job]:
                       budget_s=3000 if t else 110, label=f"component:{p}", must_exhaust=not t))
     for p in (["linear2", "linear3"] if not t else ["linear2", "linear3", "release+master"]):
         js.append(Job(__name__, "h_component", shard={"parent": p, "m": [2, 3], "ncomp": 2}, budget_s=3000 if t else 110, label=f"two-components:{p}", must_exhaust=not t))
+    for p in (["linear2", "linear3"] if not t else ["linear2", "linear3", "release+master"]):
+        js.append(Job(__name__, "h_component", shard={"parent": p, "m": [2, 3], "double_top": True}, budget_s=3000 if t else 110, label=f"two-builds-on-one-commit:{p}", must_exhaust=not t))
     for comp in COMPONENT_SHAPES:
         for p in (["linear2", "linear3"] if not t else ["linear2", "linear3", "linear4", "release+master"]):
             js.append(Job(__name__, "h_component", shard={"parent": p, "component": comp}, budget_s=3000 if t else 110, label=f"component:{comp}:{p}", must_exhaust=not t))
